@@ -534,9 +534,15 @@ IMCall == /\ I.i = "mcall"
                           IN IF q = 0 THEN FaultA("method") /\ UNCHANGED <<frames, syms, depth, nact>>
                              ELSE IF Len(cl.methods[q].params) # I.n THEN FaultA("arity") /\ UNCHANGED <<frames, syms, depth, nact>>
                              ELSE Enter(cl.methods[q], <<100 * ClassIdx(c.cls) + q>>, root, as, rest, "") /\ UNCHANGED <<heap, exc>>
-                     ELSE LET r == Builtin(c, I.m, as, root) IN
+                     ELSE \* a method that STORES its (last) argument keeps its own copy of it, like an element assignment:
+                          \* no later change through another name reaches it, and a collection can never contain itself
+                          LET stores == I.m \in {"@append", "@prepend", "@put"} /\ I.n >= 1
+                              d == IF stores THEN DupV(as[I.n], heap) ELSE [v |-> VNull, h |-> heap]
+                              as2 == IF stores THEN [as EXCEPT ![I.n] = d.v] ELSE as
+                              r == Builtin(c, I.m, as2, root)
+                          IN
                           IF r.f # "" THEN FaultA(r.f) /\ UNCHANGED <<frames, syms, depth, nact>>
-                          ELSE /\ heap' = [heap EXCEPT ![root.id] = r.cell]
+                          ELSE /\ heap' = [d.h EXCEPT ![root.id] = r.cell]
                                /\ frames' = Adv(Append(rest, r.v))
                                /\ UNCHANGED <<syms, depth, exc, nact>>
           /\ UNCHANGED <<prog, out, tr, res>>
